@@ -362,7 +362,8 @@ class Segment:
             "pin": int(md["pin"]), "kind": kind, "ens": ens,
             "pns": [int(picked[e]["traj"].path_number) for e in md["ens_nums"]],
             "pn_old": [int(picked[e]["pn_old"]) for e in md["ens_nums"]],
-            "eng": [[str(k), int(v)] for e in md["ens_nums"] for k, v in sorted(picked[e]["eng_idx"].items())],
+            # the engine *instance* a job will run on, named by the first (type, index) under which that object was seen
+            "eng": [self._engine_name(k, v) for e in md["ens_nums"] for k, v in sorted(picked[e]["eng_idx"].items())],
             "folder": os.path.basename(md["w_folder"]),
             "exe_dirs": sorted({os.path.basename(picked[e]["exe_dir"]) for e in md["ens_nums"]}),
             "fp_move": [fp_of(picked[e]["ens"]["rgen"]) for e in md["ens_nums"]],
@@ -375,6 +376,15 @@ class Segment:
             "coins": [d[1] for d in draws if d[0] == "random"],
         }
         return self.emit("Pick", job)
+
+    def _engine_name(self, key, idx):
+        from infretis.core import tis
+        try:
+            obj = tis.ENGINES[key][idx]
+        except (KeyError, IndexError, TypeError):
+            return [str(key), int(idx)]
+        seen = self.__dict__.setdefault("_engine_objs", {})
+        return seen.setdefault(id(obj), [str(key), int(idx)])
 
     def next_init_pick(self):
         """One iteration of the `while state.initiate()` loop of scheduler(); None when it ends."""
